@@ -100,6 +100,7 @@ def check_roundtrip(ctx):
                     d = Dataset.create(root, Metadata(description="rt"), ds)
                     base = _values(rnd, dtype, shp)
                     written = []
+                    stray = set()   # deliberately bad writes the format took
                     with d.filler() as f:
                         k = -1
                         for (pname, pv) in _present(rnd, base):
@@ -118,6 +119,31 @@ def check_roundtrip(ctx):
                                 k -= 1
                                 continue
                             written.append((pname, bv, sv))
+                            if len(written) == 2:
+                                # writes the library refuses (wrong shape;
+                                # a dtype that cannot be cast safely, which
+                                # the fb writer detects at the second
+                                # attribute), caught by the caller, who goes
+                                # on writing into the same shard: the accepted
+                                # examples must still read back as written
+                                # (npz does not enforce the dtype: it
+                                # would take the complex value and store the
+                                # whole column as complex, which puts the
+                                # shard outside C01's quantifier - only
+                                # safely castable presentations - so that
+                                # write is made for fb alone)
+                                for bi, bx in enumerate((
+                                        np.zeros(tuple(shp) + (2,), dtype),
+                                        np.full(shp, 1.5 + 2j, np.complex128))
+                                        [:2 if fmt == "fb" else 1]):
+                                    try:
+                                        f.write_example(
+                                            values=dict(vals, x=bx,
+                                                        id=10_000 + bi),
+                                            split="train")
+                                        stray.add(10_000 + bi)
+                                    except Exception:  # noqa: BLE001
+                                        pass
                     want = _bits(base, dtype)
                     d = Dataset(root)
                     ifaces = ["numpy", "concurrent"] + (
@@ -137,6 +163,23 @@ def check_roundtrip(ctx):
                                 witness=dict(fmt=fmt, comp=comp, dtype=dtype,
                                              shape=shp, interface=iface,
                                              error=repr(e)[:200])))
+                            continue
+                        if stray:
+                            # a deliberately bad write was taken: what its
+                            # shard-mates read back is C18's business
+                            n_eval -= 1
+                            continue
+                        if sorted(C.ex_id(e) for e in exs) != list(
+                                range(len(written))):
+                            fails.append(C.result(
+                                "round trip", False,
+                                function="ShardWriterBase.write",
+                                witness=dict(fmt=fmt, comp=comp, dtype=dtype,
+                                             shape=shp, interface=iface,
+                                             problem="ids read back differ "
+                                             "from the accepted writes",
+                                             ids=[C.ex_id(e) for e in exs][:12],
+                                             accepted=len(written))))
                             continue
                         for e in exs:
                             k = C.ex_id(e)
@@ -193,6 +236,47 @@ def check_roundtrip(ctx):
                                                  problem=bad),
                                     finding_key=key))
                                 break
+        # a consumer that overwrites what it was handed (in-place
+        # normalisation) must not change what later epochs deliver
+        import itertools as _it
+        for fmt in ("fb", "npz", "tfrec"):
+            root = tmp / f"scribble_{fmt}"
+            d = C.mk_dataset(root, fmt, "", eps=2)
+            C.fill(d, range(5), "train")
+            d = Dataset(root)
+            want5 = [_bits(C.example(i)["v"], "float32") for i in range(5)]
+            for iface in ("numpy", "concurrent") + (
+                    ("async",) if fmt != "tfrec" else ()):
+                n_eval += 1
+                got = []
+                try:
+                    for e in _epochs(d, iface, 15):
+                        got.append((C.ex_id(e), _bits(np.asarray(e["v"]),
+                                                      "float32")))
+                        for v in e.values():
+                            if isinstance(v, np.ndarray) and v.ndim and \
+                                    v.flags.writeable:
+                                v[...] = 0
+                except Exception as ex:  # noqa: BLE001
+                    fails.append(C.result(
+                        "round trip", False, function="iterate_shard",
+                        witness=dict(fmt=fmt, interface=iface,
+                                     presentation="repeat", problem="repeating "
+                                     "pass failed: " + repr(ex)[:200])))
+                    continue
+                wrong = [(n, i) for n, (i, b) in enumerate(got)
+                         if not 0 <= i < 5 or b != want5[i]]
+                if wrong or len(got) != 15:
+                    fails.append(C.result(
+                        "round trip", False, function="iterate_shard",
+                        witness=dict(fmt=fmt, interface=iface,
+                                     presentation="repeat",
+                                     problem="values delivered in a later "
+                                     "epoch differ from the values written "
+                                     "after the consumer overwrote the arrays "
+                                     "it was handed",
+                                     first_wrong_position_and_id=wrong[:3],
+                                     delivered=len(got))))
     seen = set()
     for f in fails:
         k = f.get("finding_key") or json.dumps(
@@ -221,6 +305,37 @@ def _nan_only_diff(got, base):
     bi = b.view(np.uint32)
     diff = gi != bi
     return bool(np.all(np.isnan(b[diff]))) and bool(np.all(np.isnan(g[diff])))
+
+
+def _epochs(d, iface, n):
+    """first n examples of an unshuffled repeating pass"""
+    import asyncio
+    import itertools as _it
+    kw = dict(split="train", repeat=True, shuffle=0)
+    if iface == "numpy":
+        yield from _it.islice(d.as_numpy_iterator(**kw), n)
+    elif iface == "concurrent":
+        yield from _it.islice(d.as_numpy_iterator_concurrent(
+            file_parallelism=2, **kw), n)
+    elif iface == "async":
+        # consumed inside the event loop: snapshot, then overwrite, there
+        yield from asyncio.run(_async_epochs(d, kw, n))
+    else:
+        raise ValueError(iface)
+
+
+async def _async_epochs(d, kw, n):
+    out = []
+    async for e in d.as_numpy_iterator_async(file_parallelism=2, **kw):
+        snap = {k: (np.array(v, copy=True) if isinstance(v, np.ndarray) else v)
+                for k, v in e.items()}
+        out.append(snap)
+        for v in e.values():
+            if isinstance(v, np.ndarray) and v.ndim and v.flags.writeable:
+                v[...] = 0
+        if len(out) >= n:
+            break
+    return out
 
 
 def _read(d, iface):
@@ -382,8 +497,26 @@ def check_custom_metadata(ctx):
     def absent_mix():
         for i in range(9):
             yield "train", ({"k": i // 3} if i % 3 else None)
+    def key_sets():
+        # values that differ only in which keys are present (a key dropped,
+        # a key added whose value is None / falsy, the same keys reordered)
+        for m in ({"run": 1, "aug": True}, {"run": 1}, {"run": 1, "x": None},
+                  {"run": 1, "x": 0}, {"x": 0, "run": 1}, {"run": 1, "x": []},
+                  {"run": 1}):
+            yield "train", dict(m)
+            yield "train", dict(m)
+    def pop_in_place():
+        m = {"a": 1, "b": 2, "c": {"d": 1, "e": 2}}
+        for i in range(8):
+            if i == 2:
+                m.pop("b")
+            if i == 4:
+                m["c"].pop("e")
+            if i == 6:
+                m["b"] = None
+            yield "train", m
     scenarios = [reuse_flat, reuse_nested, mutate_after, alternate_splits,
-                 absent_mix]
+                 absent_mix, key_sets, pop_in_place]
     with C.tmpdir() as tmp:
         k = 0
         for eps in (2, 3, 5):
@@ -425,17 +558,31 @@ def check_custom_metadata(ctx):
                         vals.append(m)
                 for v in vals[:3]:
                     jv = json.loads(json.dumps(v))
-                    got = C.iterate(d2, "numpy", "train",
-                                    shard_filter=lambda s, jv=jv:
-                                    s.custom_metadata == jv)
                     want = [j for j, (sp, m) in labels.items()
                             if sp == "train" and m == v]
                     extra_ok = [j for j, (sp, m) in labels.items()
                                 if sp == "train" and not m]
-                    if not set(want) <= set(got) or not set(got) <= set(
-                            want) | set(extra_ok):
-                        bad = dict(scenario=sc.__name__, eps=eps, value=v,
-                                   selected=got, expected=want)
+                    # alone, and together with the other selection option
+                    # (a limit that cannot bite must not change the answer, a
+                    # limit of one shard may only shrink it)
+                    for iface, lim in (("numpy", None), ("numpy", 1000),
+                                       ("concurrent", 1000), ("numpy", 1)):
+                        kw = {} if lim is None else dict(
+                            custom_metadata_type_limit=lim)
+                        if iface == "concurrent":
+                            kw["file_parallelism"] = 2
+                        got = C.iterate(d2, iface, "train",
+                                        shard_filter=lambda s, jv=jv:
+                                        s.custom_metadata == jv, **kw)
+                        if (lim != 1 and not set(want) <= set(got)) or \
+                                not set(got) <= set(want) | set(extra_ok) or \
+                                (lim == 1 and want and not got):
+                            bad = dict(scenario=sc.__name__, eps=eps, value=v,
+                                       interface=iface,
+                                       custom_metadata_type_limit=lim,
+                                       selected=got, expected=want)
+                            break
+                    if bad:
                         break
                 if bad:
                     break
@@ -444,9 +591,12 @@ def check_custom_metadata(ctx):
     return [C.result(
         "examples written under a non-empty metadata value are stored in a "
         "shard recorded with that value as of the write (object reused, "
-        "mutated flat / nested, alternated across splits, absent)",
+        "mutated flat / nested, keys dropped / added with None or falsy "
+        "values / popped in place, alternated across splits, absent)",
         bad is None, function="write_example", evaluations=n_eval,
-        witness=bad, bound="5 scenarios x examples_per_shard in {2,3,5}")]
+        witness=bad, bound="7 scenarios x examples_per_shard in {2,3,5}; "
+                           "selection by metadata alone and combined with "
+                           "custom_metadata_type_limit")]
 
 
 # --------------------------------------------------------------------------
